@@ -90,6 +90,15 @@ Theorem C08_is_reached_is_source : forall tau (pos shape : Type) (inside : shape
   run_is_reached tau pos shape inside hypot atan2 src_harmonize src_checks G s
   = Some (is_reached tau pos shape inside hypot atan2 G s).
 Proof. exact src_is_reached_is_model. Qed.
+(* the main statement, about the parsed programs directly *)
+Theorem C08_source_is_reached : forall tau, 0 < tau ->
+  forall (pos shape : Type) (inside : shape -> pos -> bool) (hypot atan2 : Q -> Q -> Q)
+         (G : list (gstate shape)) (s : state pos),
+  Forall (wf_goal tau shape) G ->
+  (forall g, List.In g G -> admissible pos shape hypot atan2 g s) ->
+  exists b, run_is_reached tau pos shape inside hypot atan2 src_harmonize src_checks G s = Some (Ok b) /\
+            (b = true <-> exists g, List.In g G /\ sat tau pos shape inside hypot atan2 g s).
+Proof. exact src_is_reached_spec. Qed.
 (* the frames (compared as text up to the names of locals) are the ones the interpreter and the model's list
    recursion / reversed scan stand for *)
 Theorem C08_frames_are_source :
@@ -118,3 +127,4 @@ Print Assumptions C08_reached1_is_source.
 Print Assumptions C08_is_reached_is_source.
 Print Assumptions C08_frames_are_source.
 Print Assumptions C08_source_nonvacuous.
+Print Assumptions C08_source_is_reached.
